@@ -324,8 +324,13 @@ impl Operator for QuantizeLinear {
     }
 
     fn output_types(&self, _ctx: &OutputTypesContext) -> Option<OutputTypeList> {
-        let dtype = self.output_dtype.unwrap_or(DataType::Int8);
-        Some([OutputType::Fixed(ValueType::Tensor(dtype))].into())
+        // If `output_dtype` is not set, the output has the same type as the
+        // zero point input.
+        let output_type = match self.output_dtype {
+            Some(dtype) => OutputType::Fixed(ValueType::Tensor(dtype)),
+            None => OutputType::CopyFromInput(2),
+        };
+        Some([output_type].into())
     }
 
     fn as_infer_shapes(&self) -> Option<&dyn InferShapes> {
